@@ -349,13 +349,13 @@ func (eng *Engine) verifyFunc(fn *ssa.Function, fc *FuncContract) (res FuncResul
 	sort.Strings(res.Callees)
 	res.Warnings = g.warnings
 	res.Obls = make([]OblResult, len(g.obls))
-	parallelDo(len(g.obls), 4, func(i int) {
+	parallelDo(len(g.obls), 6, func(i int) {
 		o := g.obls[i]
 		text := texts[i]
 		name := shortFuncName(fn) + "#" + o.Name
 		to := eng.timeoutS
 		if o.Kind == "cover" {
-			to = 2 // a contradictory precondition is refuted at once; satisfiability of quantified contexts is rarely decided
+			to = 1 // a contradictory precondition is refuted at once; satisfiability of quantified contexts is rarely decided
 		}
 		var r solveResult
 		if textsNoLemma[i] != "" && o.Kind != "cover" {
@@ -368,7 +368,7 @@ func (eng *Engine) verifyFunc(fn *ssa.Function, fc *FuncContract) (res FuncResul
 				r = r2
 			}
 		} else {
-			r = solve(eng.workDir, name, text, to, nil)
+			r = solve(eng.workDir, name, text, to, coverOnly(o))
 		}
 		or := OblResult{Obligation: o, Status: r.status, Backend: r.backend, TimeS: r.timeS, Output: r.output, File: filepath.Join(eng.workDir, sanitizeFile(name)+".smt2")}
 		if o.Kind == "cover" {
@@ -395,4 +395,12 @@ func shortFuncName(fn *ssa.Function) string {
 		s = strings.ReplaceAll(s, p.Path()+".", "")
 	}
 	return s
+}
+
+// cover (vacuity) queries only need a quick refutation attempt by one back end
+func coverOnly(o Obligation) []string {
+	if o.Kind == "cover" {
+		return []string{"z3-5.1.0"}
+	}
+	return nil
 }
